@@ -106,6 +106,8 @@ fn main() -> Result<(), anyhow::Error> {
         } else {
             Box::new(BufReader::new(File::open(arg)?))
         };
+        #[cfg(geodesy_verif)]
+        let reader = geodesy::verif_seam::wrap_reader(reader, arg);
         for line in reader.lines() {
             let line = line?;
             let line = line.trim();
